@@ -54,7 +54,8 @@ def unpack(
         msg = f"bitorder must be 'big' or 'little', got {bitorder}"
         raise ValueError(msg)
     bitorder_str = "big" if bitorder[0] == "b" else "little"
-    bitfact = 8 // nbits
+    # A numpy integer depth would make the size arithmetic wrap in its own width
+    bitfact = 8 // int(nbits)
     if unpacked is None:
         unpacked = np.zeros(shape=array.size * bitfact, dtype=np.uint8)
     elif unpacked.dtype != np.uint8:
@@ -111,7 +112,8 @@ def pack(
         msg = f"bitorder must be 'big' or 'little', got {bitorder}"
         raise ValueError(msg)
     bitorder_str = "big" if bitorder[0] == "b" else "little"
-    bitfact = 8 // nbits
+    # A numpy integer depth would make the size arithmetic wrap in its own width
+    bitfact = 8 // int(nbits)
     if array.size % bitfact != 0:
         msg = f"Input size must be a multiple of {bitfact}, got {array.size}"
         raise ValueError(msg)
